@@ -556,7 +556,8 @@ edn_value_t* edn_parse_text_block(edn_parser_t* parser) {
     }
 
     size_t line_count = 0;
-    size_t lwp = 0; /* Minimum indentation: Longest common Whitespace Prefix */
+    size_t lwp = SIZE_MAX; /* Minimum indentation: Longest common Whitespace Prefix
+                            * (SIZE_MAX = no line seen yet; 0 is a real indentation) */
 
     while (parser->current < parser->end) {
         /* Grow line buffer if we've reached capacity (double the size) */
@@ -601,7 +602,7 @@ edn_value_t* edn_parse_text_block(edn_parser_t* parser) {
 
         if (parsed->content_length > 0 || parsed->terminal) {
             /* Line has content OR is closing delimiter - include in lwp calculation */
-            if (lwp == 0 || ws_prefix < lwp) {
+            if (ws_prefix < lwp) {
                 lwp = ws_prefix;
             }
         }
@@ -611,6 +612,10 @@ edn_value_t* edn_parse_text_block(edn_parser_t* parser) {
         if (parsed->terminal) {
             break;
         }
+    }
+
+    if (lwp == SIZE_MAX) {
+        lwp = 0;
     }
 
     size_t total_len = 0;
